@@ -1,4 +1,6 @@
 import ShellOp.Model.Trigger
+import ShellOp.Model.TriggerShared
+import ShellOp.Proofs.Snapshot
 /-!
 # C08 — hooks are triggered only by meaningful changes (event type and jqFilter)
 
@@ -1076,5 +1078,166 @@ theorem binding_kind_key_witness :
   decide
 
 example : loadKey "cm" ⟨"default", "ConfigMap", "cm-a"⟩ = "default/ConfigMap/cm-a" := by decide
+
+/-! ## Sixth wave: what several bindings share — the FactoryStore below the handlers, the parsing of
+the jq text -/
+
+section Shared
+open ShellOp.Snapshot
+
+theorem fsServed_iff' (s : FStore) (inf : Nat) (idx : Key) :
+    fsServed s inf idx = true ↔ ∃ g, kget FEntry.idx s idx = some g ∧ inf ∈ g.regs := by
+  unfold fsServed
+  cases hg : kget FEntry.idx s idx with
+  | none => simp
+  | some g => simp
+
+/-- **C08 sibling_stop_keeps_served.** In every store: the `Stop` of ANOTHER informer of the same
+factory index (a sibling binding hanging on the same shared informer) leaves this informer served —
+the factory is cancelled and deleted only when no registration is left. -/
+theorem sibling_stop_keeps_served (s : FStore) (inf other : Nat) (idx : Key)
+    (h : fsServed s inf idx = true) (hne : other ≠ inf) :
+    fsServed (fsStop s other idx) inf idx = true := by
+  rw [fsServed_iff'] at h ⊢
+  obtain ⟨g, hg, hmem⟩ := h
+  unfold fsStop
+  have hi : inf ≠ other := fun e => hne e.symm
+  have hfil : inf ∈ g.regs.filter (· != other) := by simp [List.mem_filter, hmem, hi]
+  simp only [hg]
+  by_cases hc : g.regs.contains other = true
+  · rw [if_pos hc]
+    have hemp : (g.regs.filter (· != other)).isEmpty = false := by
+      cases hl : g.regs.filter (· != other) with
+      | nil => rw [hl] at hfil; cases hfil
+      | cons a t => rfl
+    simp only [hemp, Bool.false_eq_true, if_false]
+    exact ⟨_, by rw [kget_kput]; exact if_pos rfl, hfil⟩
+  · rw [if_neg hc]; exact ⟨g, hg, hmem⟩
+
+/-- any number of siblings may stop, one after the other -/
+theorem sibling_stops_keep_served (s : FStore) (inf : Nat) (others : List Nat) (idx : Key)
+    (h : fsServed s inf idx = true) (hne : inf ∉ others) :
+    fsServed (others.foldl (fun st o => fsStop st o idx) s) inf idx = true := by
+  induction others generalizing s with
+  | nil => exact h
+  | cons o t ih =>
+    simp only [List.foldl_cons]
+    apply ih
+    · exact sibling_stop_keeps_served s inf o idx h (fun e => hne (e ▸ List.mem_cons_self ..))
+    · exact fun hm => hne (List.mem_cons_of_mem _ hm)
+
+/-- **C08 deleted_fires_after_sibling_stops.** "A Deleted change triggers whenever Deleted is listed"
+— also after bindings that shared the informer have stopped: for every store, every binding served
+by it, any siblings stopping, every cache and object, the Deleted change is handled by
+`handleWatchEvent` (fires iff Deleted is listed; the object leaves the snapshot). -/
+theorem deleted_fires_after_sibling_stops {C : Type} [DecidableEq C] (s : FStore) (inf : Nat)
+    (others : List Nat) (idx : Key) (cfg : Cfg) (cks : J → C) (cache : Cache C) (id : Nat) (obj : J)
+    (h : fsServed s inf idx = true) (hne : inf ∉ others) :
+    let r := handleVia (others.foldl (fun st o => fsStop st o idx) s) inf idx cfg cks cache .deleted id obj
+    (r.2.isSome = true ↔ WatchEvent.deleted ∈ cfg.types) ∧ aget id r.1 = none := by
+  simp only [handleVia, sibling_stops_keep_served s inf others idx h hne, if_true]
+  exact deleted_fires_iff cfg cks cache id obj
+
+/-- **C08 suppressed_still_cached_after_sibling_stops.** "Suppressed changes still update what
+snapshots show" after siblings have stopped: the change goes through `handleWatchEvent`, so the
+cache holds the entry of the delivered state. -/
+theorem change_still_handled_after_sibling_stops {C : Type} [DecidableEq C] (s : FStore) (inf : Nat)
+    (others : List Nat) (idx : Key) (cfg : Cfg) (cks : J → C) (cache : Cache C) (ev : WatchEvent)
+    (id : Nat) (obj : J) (h : fsServed s inf idx = true) (hne : inf ∉ others) :
+    handleVia (others.foldl (fun st o => fsStop st o idx) s) inf idx cfg cks cache ev id obj
+      = handle cfg cks cache ev id obj := by
+  simp only [handleVia, sibling_stops_keep_served s inf others idx h hne, if_true]
+
+/-- Witness (NOT the code): with the handlers-left number decremented twice (`fsStopOffByOne`) the
+stop of one of exactly TWO bindings sharing an informer leaves the other unserved — its Deleted
+never fires although Deleted is listed and the object stays in its snapshot; with three bindings,
+or with the code's `fsStop`, nothing is wrong. -/
+theorem off_by_one_stop_witness :
+    let x : Key := ⟨1, 1, 0⟩
+    let two := fsStart (fsStart [] 1 x) 2 x
+    let three := fsStart two 3 x
+    let cfg : Cfg := { exCfg with types := [.deleted] }
+    let cache : Cache J := [(1, { cks := .null, fr := none, obj := none })]
+    fsServed (fsStopOffByOne two 1 x) 2 x = false ∧ fsServed (fsStop two 1 x) 2 x = true ∧
+    fsServed (fsStopOffByOne three 1 x) 2 x = true ∧
+    ((handleVia (fsStopOffByOne two 1 x) 2 x cfg id cache .deleted 1 (exObj 1 0)).2.isSome,
+      (aget 1 (handleVia (fsStopOffByOne two 1 x) 2 x cfg id cache .deleted 1 (exObj 1 0)).1).isSome) = (false, true) ∧
+    (handleVia (fsStop two 1 x) 2 x cfg id cache .deleted 1 (exObj 1 0)).2.isSome = true := by
+  decide
+
+/-- non-vacuity: two bindings on one index, the first stops, the second handles a Deleted -/
+example : fsServed (fsStop (fsStart (fsStart [] 1 ⟨1, 1, 0⟩) 2 ⟨1, 1, 0⟩) 1 ⟨1, 1, 0⟩) 2 ⟨1, 1, 0⟩ = true := by
+  decide
+
+/-- **C08 each_binding_its_own_decision.** One change handed to all bindings of a process: what the
+k-th binding emits and caches is `handleWatchEvent` with ITS configuration (its jqFilter, its event
+types) and ITS cache — whatever the other bindings are. -/
+theorem each_binding_its_own_decision {C : Type} [DecidableEq C] (cks : J → C) (bs : List (Cfg × Cache C))
+    (ev : WatchEvent) (id : Nat) (obj : J) (k : Nat) :
+    (deliverAll cks bs ev id obj)[k]? = bs[k]?.map (fun b => handle b.1 cks b.2 ev id obj) := by
+  simp [deliverAll]
+
+/-- **C08 parse_each_own_program.** `jq.run` parses the text it is handed on every call: the program
+applied for a binding is the parse of that binding's jqFilter, whatever filters (of whatever other
+bindings) were applied before. -/
+theorem parse_each_own_program {T P : Type} (parse : T → P) (earlier : List T) (t : T) :
+    parseEach parse earlier t = parse t := rfl
+
+/-- the table's invariant: every entry is the parse of a text with that key -/
+def MemoOk {T P K : Type} (key : T → K) (parse : T → P) (tab : List (K × P)) : Prop :=
+  ∀ e ∈ tab, ∃ t, e.1 = key t ∧ e.2 = parse t
+
+/-- **C08 memo_parse_transparent.** A table of parsed programs is invisible — every binding gets the
+parse of its own text, after any history of lookups — when the key is injective on the texts. -/
+theorem memo_parse_transparent {T P K : Type} [DecidableEq K] (key : T → K) (parse : T → P)
+    (hinj : Function.Injective key) (tab : List (K × P)) (hok : MemoOk key parse tab) (t : T) :
+    (memoParse key parse tab t).2 = parse t ∧ MemoOk key parse (memoParse key parse tab t).1 := by
+  unfold memoParse
+  cases hf : tab.find? (fun e => e.1 = key t) with
+  | none =>
+    refine ⟨rfl, ?_⟩
+    intro e he
+    rcases List.mem_append.1 he with h | h
+    · exact hok e h
+    · simp only [List.mem_singleton] at h
+      exact ⟨t, by rw [h], by rw [h]⟩
+  | some e =>
+    have hmem := List.mem_of_find?_eq_some hf
+    have hk : e.1 = key t := by simpa using List.find?_some hf
+    obtain ⟨t', h1, h2⟩ := hok e hmem
+    have : t' = t := hinj (h1.symm.trans hk)
+    exact ⟨by simp only []; rw [h2, this], hok⟩
+
+theorem memo_run_ok {T P K : Type} [DecidableEq K] (key : T → K) (parse : T → P)
+    (hinj : Function.Injective key) (tab : List (K × P)) (hok : MemoOk key parse tab) (ts : List T) :
+    MemoOk key parse (memoRun key parse tab ts) := by
+  induction ts generalizing tab with
+  | nil => exact hok
+  | cons t rest ih => exact ih _ (memo_parse_transparent key parse hinj tab hok t).2
+
+/-- after any filters of any bindings went through the table (starting empty), a lookup gives the
+binding's own program -/
+theorem memo_parse_after_any_history {T P K : Type} [DecidableEq K] (key : T → K) (parse : T → P)
+    (hinj : Function.Injective key) (ts : List T) (t : T) :
+    (memoParse key parse (memoRun key parse [] ts) t).2 = parse t :=
+  (memo_parse_transparent key parse hinj _
+    (memo_run_ok key parse hinj [] (fun _ h => by cases h) ts) t).1
+
+/-- Witness (NOT the code): with a key that squeezes runs of blanks, `.data["k k"]` and
+`.data["k  k"]` — two programs reading two different keys — share one table entry: the binding
+whose filter is applied second runs the FIRST binding's program; its projection is the other key's
+value. -/
+theorem squeezed_key_memo_witness :
+    let f1 : Filter := .path ["data", "k k"]
+    let f2 : Filter := .path ["data", "k  k"]
+    let key : Filter → List (List Char) := fun f => match f with
+      | .path ks => ks.map (fun k => squeeze k.toList)
+      | _ => []
+    let obj : J := .obj [("data", .obj [("k k", .num 1), ("k  k", .num 2)])]
+    key f1 = key f2 ∧ f1.eval obj ≠ f2.eval obj ∧
+    ((memoParse key id (memoParse key id [] f1).1 f2).2).eval obj = f1.eval obj := by
+  decide
+
+end Shared
 
 end ShellOp.Trigger.C08
